@@ -533,9 +533,17 @@ def extra_cases(rng, tier):
     from . import c09
     k = {"quick": 250, "thorough": 4000, "search": 500}[tier]
     yield "C09", list(itertools.islice(c09.gen_cases(rng, "quick" if tier != "thorough" else "search"), k))
+    # the connection task's side of "answered exactly once unless the connection terminates first": the REAL
+    # `TcpConnection::start` loop over loopback TCP (tcploop area) — open requests in bursts beyond the yamux ACK
+    # backlog, remotes that never answer, small substream_open_timeout, fallback names; judged by `tcploop.oracle_c08`
+    from . import tcploop
+    yield "TCPLOOP", tcploop.gen_cases(rng, tier, focus="C08")
 
 
 def oracle_extra(xpid, case, out):
+    if xpid == "TCPLOOP":
+        from . import tcploop
+        return [dict(v, msg="(real TcpConnection loop, tcploop area) " + v["msg"]) for v in tcploop.oracle_c08(case, out)]
     if xpid == "C09":
         from . import c09
         return [dict(v, msg="(keep-alive service, C09 area) " + v["msg"]) for v in c09.oracle(case, out)
@@ -545,6 +553,10 @@ def oracle_extra(xpid, case, out):
 
 
 def stats_extra(xpid, case, out, acc):
+    if xpid == "TCPLOOP":
+        from . import tcploop
+        tcploop.stats(case, out, acc)
+        return
     if xpid == "C09":
         bump(acc, "extra:C09")
         return
